@@ -37,6 +37,22 @@ pub fn vmap_ref_entries<'a>(m: &'a std::collections::HashMap<String, String>) ->
         forall|k: String| #[trigger] m@.contains_key(k) ==> exists|i: int| 0 <= i < r@.len() && *(#[trigger] r@[i]).0 == k,
         forall|i: int, j: int| 0 <= i < j < r@.len() ==> *(#[trigger] r@[i]).0 != *(#[trigger] r@[j]).0,
 { unimplemented!() }
+/// `m.keys()` of a borrowed map with string keys, as a vector (std iteration order is unspecified: any order, every key once)
+#[verifier::external_body]
+pub fn vmap_keys_of<'a, V>(m: &'a std::collections::HashMap<String, V>) -> (r: Vec<&'a String>)
+    ensures
+        forall|i: int| 0 <= i < r@.len() ==> m@.contains_key(*(#[trigger] r@[i])),
+        forall|k: String| #[trigger] m@.contains_key(k) ==> exists|i: int| 0 <= i < r@.len() && *(#[trigger] r@[i]) == k,
+        forall|i: int, j: int| 0 <= i < j < r@.len() ==> *(#[trigger] r@[i]) != *(#[trigger] r@[j]),
+{ m.keys().collect() }
+/// by-reference iteration over a borrowed string set, as a vector (any order, every element once)
+#[verifier::external_body]
+pub fn vset_ref_vec<'a>(m: &'a std::collections::HashSet<String>) -> (r: Vec<&'a String>)
+    ensures
+        forall|i: int| 0 <= i < r@.len() ==> m@.contains(*(#[trigger] r@[i])),
+        forall|k: String| #[trigger] m@.contains(k) ==> exists|i: int| 0 <= i < r@.len() && *(#[trigger] r@[i]) == k,
+        forall|i: int, j: int| 0 <= i < j < r@.len() ==> *(#[trigger] r@[i]) != *(#[trigger] r@[j]),
+{ m.iter().collect() }
 // T4: &String keys obey the key model exactly as String keys do
 pub broadcast axiom fn string_ref_key_model() ensures #[trigger] vstd::std_specs::hash::obeys_key_model::<&String>();
 // R11: HashMap::retain(|key, _| !key.starts_with(P)) -> v_retain_not_prefix(map, P)
